@@ -309,6 +309,8 @@ class PoolCtx:
 
 def generate(rng, prop, tier):
     d = rng.choice([2, 2, 3, 3, 4])
+    if rng.random() < 0.06:
+        d = 1               # one-core tensors: many functions reject them, those that accept them must not alias either
     n = [rng.choice([1, 2, 2, 3, 3, 4, 5]) for _ in range(d)]
     if rng.random() < 0.25:
         n = [rng.choice([2, 4])] * d
